@@ -236,3 +236,27 @@ PROPS["C03"] = {
     "nontrivial": lambda il, meta: any(l.startswith("E NoFragmentsCycle") for l in il) or len(meta.get("doc", "")) > 400,
     "partial": "real stack depth and wall-clock time are outside the model: the theorems give termination of the model (fuel bounds), the harness measures the implementation in child processes",
 }
+
+
+# ---------------------------------------------------------------- C19
+def c19_view(lines):
+    out = []
+    for l in lines:
+        if " | " in l:
+            head, groups = l.split(" | ", 1)
+            out.append(head + " | " + ";".join(sorted(g for g in groups.split(";") if g)))
+        else:
+            out.append(l)
+    return sorted(out)
+
+
+def c19_nontrivial(il, meta):
+    # some group with two fields, and some fragment spread in the document
+    return any("," in l for l in il) and "..." in meta.get("doc", "")
+
+
+PROPS["C19"] = {
+    "rule": "collect_fields called on EVERY selection set of the document paired with EVERY object type of the schema; documents: random schema-aware documents, fragment graphs of every shape on up to 3 fragments incl. cycles and unknown fragment names, corpus documents with aliases colliding with / differing from field names and type conditions on the same type / an implemented interface / a containing union / unrelated types; compared: the groups (response key -> fields with positions, in order) as sets of groups, implementation vs extracted model vs the specification's CollectFields. distinct = distinct (schema, document); non-trivial = some response key collects two or more fields and the document spreads a fragment",
+    "impl_view": c19_view, "model_view": c19_view, "spec_view": c19_view,
+    "nontrivial": c19_nontrivial,
+}
